@@ -269,7 +269,14 @@ func (x *expecter) message(f *File, m *Message) *descriptorpb.DescriptorProto {
 		md.EnumType = append(md.EnumType, x.enum(e))
 	}
 	for _, r := range m.ExtRanges {
-		md.ExtensionRange = append(md.ExtensionRange, &descriptorpb.DescriptorProto_ExtensionRange{Start: proto.Int32(int32(r.Lo)), End: proto.Int32(int32(r.Hi + 1))})
+		er := &descriptorpb.DescriptorProto_ExtensionRange{Start: proto.Int32(int32(r.Lo)), End: proto.Int32(int32(r.Hi + 1))}
+		// the options of an extensions statement apply to each of its ranges
+		if o, has, ok := applyOpts(func() *descriptorpb.ExtensionRangeOptions { return &descriptorpb.ExtensionRangeOptions{} }, m.ExtRangeOpts); !ok {
+			x.ok = false
+		} else if has {
+			er.Options = o
+		}
+		md.ExtensionRange = append(md.ExtensionRange, er)
 	}
 	for _, r := range m.Reserved {
 		md.ReservedRange = append(md.ReservedRange, &descriptorpb.DescriptorProto_ReservedRange{Start: proto.Int32(int32(r.Lo)), End: proto.Int32(int32(r.Hi + 1))})
